@@ -195,7 +195,7 @@ func init() {
 		L := r.Pick(6, 8)
 		targets := c14Targets()
 		r.Bound = map[string]interface{}{"history_length": L, "values_per_type": 3, "targets": len(targets)}
-		r.Rule = "every prefix-valid add/retract history (a retraction never exceeds the earlier additions of that value) up to the length bound over 3 values per argument type (2 for Boolean; Int and Duration additionally over {MaxInt64, small, MinInt64}, where running sums wrap and only the comparison with a fresh instance is made), for every aggregate descriptor x applicable argument type, replayed on a fresh instance of the real aggregate; Trigger() is read at every prefix whose net multiset is non-empty; state = history prefix; non-trivial = prefix that contains a retraction and has a non-empty net multiset"
+		r.Rule = "every prefix-valid add/retract history (a retraction never exceeds the earlier additions of that value) up to the length bound over 3 values per argument type (2 for Boolean; Int and Duration additionally over {MaxInt64, small, MinInt64}, where running sums wrap and only the comparison with a fresh instance is made), for every aggregate descriptor x applicable argument type, replayed on a fresh instance of the real aggregate; Trigger() is read at every prefix whose net multiset is non-empty, and every value it returned earlier in the history must still read the same afterwards; state = history prefix; non-trivial = prefix that contains a retraction and has a non-empty net multiset"
 		r.Assume("Trigger is only called while the net multiset is non-empty (the group-by protocol)", "NaN and signed zeros excluded (C09)", "float sums compared within 1e-9*sum|x|")
 		type job struct {
 			t     aggTarget
@@ -239,6 +239,9 @@ func init() {
 				agg := t.proto()
 				cnt := make([]int, nv)
 				hasRetr := false
+				// values handed out by earlier Trigger() calls must stay what they were (a group-by keeps them to retract them later)
+				var handedOut []octosql.Value
+				var handedOutStr []string
 				for i, s := range seq {
 					if s < nv {
 						cnt[s]++
@@ -258,6 +261,23 @@ func init() {
 						continue
 					}
 					got := agg.Trigger()
+					for hi := range handedOut {
+						if now := stream.ValKey(handedOut[hi]); now != handedOutStr[hi] {
+							cs := aggCase{Aggregate: t.name, ArgType: t.argType, Prefix: i + 1, Got: now, Want: handedOutStr[hi]}
+							for _, s2 := range seq {
+								if s2 < nv {
+									cs.History = append(cs.History, "+"+stream.ValKey(t.dom[s2]))
+								} else {
+									cs.History = append(cs.History, "-"+stream.ValKey(t.dom[s2-nv]))
+								}
+							}
+							r.Violation(fmt.Sprintf("C14/%s(%s)/earlier-result-changed-afterwards", t.name, t.argType),
+								fmt.Sprintf("%s over %s: history %v: the value returned by an earlier Trigger() was %s and reads %s after prefix %d", t.name, t.argType, cs.History, handedOutStr[hi], now, i+1), cs)
+							return
+						}
+					}
+					handedOut = append(handedOut, got)
+					handedOutStr = append(handedOutStr, stream.ValKey(got))
 					var want octosql.Value
 					tol := 0.0
 					if !t.extreme {
